@@ -1115,6 +1115,21 @@ def record_fields(fn, assume):
                             objs[tgt.id][k.arg] = _txt(k.value)
                             order.append(k.arg)
                         continue
+                    if isinstance(v, ast.Call) and isinstance(v.func, ast.Name) and v.func.id[:1].isupper() and not v.args and v.keywords and all(k.arg for k in v.keywords) \
+                            and len(v.keywords) >= 3:
+                        # obj = Cls(a=.., b=.., ..): every field is what the call gives it; a field not given keeps the class default
+                        sd_ = single_defs(fn)
+                        rec_ = {"__class__": _txt(v.func), "__explicit__": True}
+                        for k in v.keywords:
+                            kv_ = k.value
+                            if isinstance(kv_, ast.Name) and kv_.id in sd_ and not isinstance(sd_[kv_.id], ast.Call):
+                                kv_ = sd_[kv_.id]
+                            elif isinstance(kv_, ast.Call) and any(isinstance(x_, ast.Name) and x_.id in sd_ for x_ in ast.walk(kv_)):
+                                kv_ = _Inline(sd_, ()).visit(_clone(kv_))
+                            rec_[k.arg] = _txt(kv_)
+                            order.append(k.arg)
+                        objs[tgt.id] = rec_
+                        continue
                     if isinstance(v, ast.Call) and len(v.keywords) == 1 and v.keywords[0].arg is None and not v.args:
                         kv = v.keywords[0].value
                         src = dicts.get(kv.id) if isinstance(kv, ast.Name) else dict_value(kv)
